@@ -110,6 +110,18 @@ def extra_obligations(world, tier, seed):
     return out
 
 
+def bounded_checks(tier, seed):
+    """Thorough tier: the bounded stand-in search of this property also runs when nothing is
+    undecided (deeper exploration, labelled bounded; a failing input is replayed by construction)."""
+    if tier != "thorough":
+        return []
+    from pyvc.checker import run_standin
+    res = run_standin(STANDIN, seed)
+    return [{"id": "C08/bounded/standin-search", "function": STANDIN,
+             "tool": "native differential search", "bound": STANDIN_BUDGET,
+             "failed": bool(res), "input": res, "output": ""}]
+
+
 def native_checks(tier, seed):
     out = []
     for name, code in WITNESSES.items():
